@@ -436,6 +436,11 @@ func init() {
 			s.Leaves += runs
 			s.Extra["linear_runs"] = runs
 			s.Extra["linear_nodes"] = n
+			if err := sparsePass(cfg, s, func(f string) (int, error) {
+				return listLinear(cfg, f, runs, steps)
+			}); err != nil {
+				return nil, err
+			}
 			return s, nil
 		},
 		newSys: func(variant string) (func() tt.Sys, any) {
